@@ -26,14 +26,14 @@ ItemClauses(m, ric, ext, eao, res, inp, tgt) ==
   ELSE StageClauses("input", inp, InputImg(m), ric, ext) \cup StageClauses("target", tgt, TargetImg(m, eao), ric, ext)
 
 BatchClauses(items, b) ==
-  LET idxs == b.idxs  n == Len(idxs)  out == b.out IN
+  LET idxs == b.idxs  n == Len(idxs)  bo == b.out IN
   IF \E k \in 1..n : items[idxs[k] + 1].res # "ok" THEN {}          \* reported per item
-  ELSE IF n = 0 THEN (IF b.res # "ok" \/ Len(out) = 0 \/ \A a \in 1..Len(out) : Len(out[a]) = 0 THEN {} ELSE {"batch_order"})
+  ELSE IF n = 0 THEN (IF b.res # "ok" \/ Len(bo) = 0 \/ \A a \in 1..Len(bo) : Len(bo[a]) = 0 THEN {} ELSE {"batch_order"})
   ELSE IF b.res # "ok" THEN {"batch_raises"}
-  ELSE IF /\ Len(out) = 2 /\ Len(out[1]) = n /\ Len(out[2]) = n
-          /\ \A k \in 1..n : out[1][k] = items[idxs[k] + 1].inp /\ out[2][k] = items[idxs[k] + 1].tgt THEN {}
-  ELSE IF /\ Len(out) = n
-          /\ \A k \in 1..n : Len(out[k]) = 2 /\ out[k][1] = items[idxs[k] + 1].inp /\ out[k][2] = items[idxs[k] + 1].tgt THEN {"M:batch_layout"}
+  ELSE IF /\ Len(bo) = 2 /\ Len(bo[1]) = n /\ Len(bo[2]) = n
+          /\ \A k \in 1..n : bo[1][k] = items[idxs[k] + 1].inp /\ bo[2][k] = items[idxs[k] + 1].tgt THEN {}
+  ELSE IF /\ Len(bo) = n
+          /\ \A k \in 1..n : Len(bo[k]) = 2 /\ bo[k][1] = items[idxs[k] + 1].inp /\ bo[k][2] = items[idxs[k] + 1].tgt THEN {"M:batch_layout"}
   ELSE {"batch_order"}
 
 DsClauses(r) ==
@@ -59,11 +59,11 @@ Clauses(r) ==
   ELSE {"M:input_malformed"}
 
 VARIABLES l, bad
-Init == l = 1 /\ bad = {} /\ mz = NoMaze /\ opt = <<>> /\ out = <<>> /\ pc = "trace"
-Next == /\ l <= Len(Log) /\ l' = l + 1
+TInit == l = 1 /\ bad = {} /\ mz = NoMaze /\ opt = <<>> /\ out = <<>> /\ pc = "trace"
+TNext == /\ l <= Len(Log) /\ l' = l + 1
         /\ bad' = bad \cup (LET cs == Clauses(Log[l]) IN IF cs = {} THEN {} ELSE {[id |-> Log[l].id, c |-> cs]})
         /\ UNCHANGED vars
-TSpec == Init /\ [][Next]_<<l, bad, vars>>
+TSpec == TInit /\ [][TNext]_<<l, bad, vars>>
 Done == (l = Len(Log) + 1) =>
           ndJsonSerialize(IOEnv.VERIF_OUT, <<[id |-> -1, c |-> {ToString(Len(Log))}]>> \o SetToSeq(bad))
 =========================================================================
